@@ -384,6 +384,14 @@ func c06Triples(r *rt.Rec, rng *rand.Rand, n int) {
 	os := []*triple.Object{triple.NewNodeObject(ns[0]), triple.NewNodeObject(ns[3]), triple.NewNodeObject(ns[4]), triple.NewPredicateObject(ps[0]), triple.NewPredicateObject(ps[2]), triple.NewPredicateObject(ps[3]),
 		triple.NewLiteralObject(gen.MustLit(literal.Text, "abc")), triple.NewLiteralObject(gen.MustLit(literal.Blob, []byte("abc"))), triple.NewLiteralObject(gen.MustLit(literal.Int64, int64(5))),
 		triple.NewLiteralObject(gen.MustLit(literal.Text, "pimmutable")), triple.NewLiteralObject(gen.MustLit(literal.Text, "/ua"))}
+	// numbers that a lossy rendering conflates: equal to six decimals, equal as
+	// float32, equal as float64 (int64 above 2^53), and the ends of the ranges
+	for _, f := range []float64{1.0000001, 1.0000002, 3e-9, 4e-9, 1e-300, 0, 1, 1.0000000000000002, 20.25, 20.250000001, math.MaxFloat64, math.SmallestNonzeroFloat64} {
+		os = append(os, triple.NewLiteralObject(gen.MustLit(literal.Float64, f)))
+	}
+	for _, v := range []int64{9007199254740992, 9007199254740993, math.MaxInt64, math.MaxInt64 - 1, math.MinInt64, math.MinInt64 + 1, 1 << 55, 1 << 56} {
+		os = append(os, triple.NewLiteralObject(gen.MustLit(literal.Int64, v)))
+	}
 	var ts []*triple.Triple
 	for _, s := range ns {
 		for _, p := range ps {
